@@ -444,6 +444,9 @@ type runSpec struct {
 	MaxDelay int                  `json:"max_delay_us"`
 	Cap      int                  `json:"cap"`
 	Wfs      []*wfSpec            `json:"wfs"`
+	// BrokenProject > 0: that file lives in a repository of its own whose configuration file does
+	// not parse (resolving its project is a fatal error of the run)
+	BrokenProject int `json:"broken_project,omitempty"`
 }
 
 type env struct {
@@ -533,6 +536,13 @@ func execRun(e *env, idx int, rs *runSpec) *runResult {
 	paths := []string{}
 	for i, src := range rs.Files {
 		p := filepath.Join(dir, fmt.Sprintf("f_%d.yaml", i))
+		if rs.BrokenProject > 0 && i == rs.BrokenProject {
+			bp := filepath.Join(dir, "bp")
+			hx.Must(os.MkdirAll(filepath.Join(bp, ".git"), 0o755))
+			hx.Must(os.MkdirAll(filepath.Join(bp, ".github", "workflows"), 0o755))
+			hx.Must(os.WriteFile(filepath.Join(bp, ".github", "actionlint.yaml"), []byte("self-hosted-runner: [\n"), 0o644))
+			p = filepath.Join(bp, ".github", "workflows", fmt.Sprintf("f_%d.yaml", i))
+		}
 		hx.Must(os.WriteFile(p, []byte(src), 0o644))
 		paths = append(paths, p)
 	}
@@ -911,6 +921,15 @@ func execRun(e *env, idx int, rs *runSpec) *runResult {
 		}
 		fail(fmt.Sprintf("tool invocations still outstanding when Lint* returned (started %d, ended %d at return; %d log lines later; %d invocations not done at return)", ns, ne, len(logFinal)-len(logAtReturn), outstandingAtReturn), key, nil)
 	}
+	if rs.BrokenProject > 0 {
+		// the run must end in the fatal error of the broken configuration; what had been started
+		// before the error is no part of a result, so the per-script oracles do not apply
+		if lerr == nil {
+			fail("a file of a repository whose configuration does not parse did not make the run fatal", "broken-project:not-fatal", nil)
+		}
+		res.skipped = "fatal-before-start"
+		return res
+	}
 	// (3) every run: script with an applicable shell is passed exactly once, sanitised
 	seen := map[string]int{}
 	for _, t := range logFinal {
@@ -1270,9 +1289,23 @@ func gridRun(r *hx.Rng, idx int) *runSpec {
 	return rs
 }
 
+// brokenProjectRun: the LAST file of the run belongs to a repository whose configuration does not
+// parse; the files before it have slow tool invocations. The run ends in a fatal error, and no
+// tool process may be running when it is returned.
+func brokenProjectRun(r *hx.Rng) *runSpec {
+	rs := directedRun(r, 3)
+	rs.Sched["1"] = behaviour{Beh: "ok", Lat: 300}
+	rs.Sched["11"] = behaviour{Beh: "ok", Lat: 300}
+	rs.BrokenProject = 2
+	return rs
+}
+
 func genRun(r *hx.Rng, idx int, thorough bool, cap int) *runSpec {
 	if idx < 2 {
 		return directedRun(r, 1+idx*2)
+	}
+	if idx == 3 {
+		return brokenProjectRun(r)
 	}
 	if idx == 2 {
 		return gridRun(r, idx)
@@ -1742,6 +1775,13 @@ func main() {
 		res := execRun(e, i, rs)
 		if res.skipped != "" {
 			sum.Dist["skipped:"+res.skipped]++
+			if res.skipped == "fatal-before-start" {
+				// (judged by the fatal-error and no-process-outstanding oracles only; no model case)
+				sum.Evaluations++
+				for _, f := range res.fails {
+					sum.OracleFails = append(sum.OracleFails, f)
+				}
+			}
 			continue
 		}
 		sum.Evaluations++
